@@ -27,6 +27,21 @@ def prove_targets(db, targets, lemmas=(), timeout_ms=20000, verbose=False):
             except Exception as e:
                 undecided.append({"function": cc.target, "contract": cc.target, "reason": "engine error: %r" % e})
             continue
+        if cc.options.get("alias_only"):
+            try:
+                o, rec = verify.verify_alias(db, cc)
+                for ob in o:
+                    heaps[id(ob.inputs)] = {}
+                obs += o
+                rec["contract"] = cc.target
+                rec["obligations"] = len(o)
+                funcs.append(rec)
+            except (Unsupported, NotImplementedError) as e:
+                undecided.append({"function": cc.target, "contract": cc.target, "reason": "Unsupported (alias analysis): %s" % e})
+            except Exception as e:
+                undecided.append({"function": cc.target, "contract": cc.target, "reason": "engine error: %r" % e,
+                                  "trace": traceback.format_exc()[-1500:]})
+            continue
         variants = [(cc, cc.target, None)]
         impl = cc.opts.get("implements")
         if impl and impl in db.contracts:
@@ -100,7 +115,11 @@ def main():
     ap.add_argument("-v", action="store_true")
     a = ap.parse_args()
     db = contracts.ContractDB()
-    if a.what in db.contracts:
+    if a.what == "frames":
+        cs, ls = list(db.frames.values()), []
+    elif a.what.endswith("#frame") and a.what[:-6] in db.frames:
+        cs, ls = [db.frames[a.what[:-6]]], []
+    elif a.what in db.contracts:
         cs, ls = [db.contracts[a.what]], []
     elif a.what in db.lemmas:
         cs, ls = [], [db.lemmas[a.what]]
